@@ -14,7 +14,7 @@ import (
 
 func c13Opts(r *mon.RNG, i int) *gram.GenOpts {
 	prof := []int{gram.ProfStateful, gram.ProfDefault, gram.ProfLower}[i%3]
-	return &gram.GenOpts{Profile: prof, MaxProds: 5, Budget: 14 + r.Intn(14), Depth: 2 + r.Intn(3), TokKinds: i%4 == 0, Unions: true,
+	return &gram.GenOpts{Profile: prof, MaxProds: 5, Budget: 14 + r.Intn(14) + (i/90)*6, Depth: 2 + r.Intn(3) + i/150, TokKinds: i%4 == 0, Unions: true,
 		SharePrefix: 8, CaptureBias: 5, SubBias: 4, AllowBang: true, NoNegLook: true}
 }
 
@@ -132,7 +132,7 @@ func init() {
 		Rule:        "case = (generated grammar without ~ and lookahead groups, token string): the same text is parsed by parsers built with lookahead 0,1,2,3,5,8,50,MaxLookahead,unlimited; once some k succeeds every larger k must succeed with an identical AST (all fields, positions and token lists). Non-trivial: the parse succeeded for some k and either a smaller k failed or the reference trace at the first successful k abandoned an attempt. Distinct by (grammar IR, token string).",
 		Assumptions: []string{"the verdict is purely metamorphic (no reference semantics involved); the reference trace only supplies coverage counts"},
 		Batches:     func(t string) int { return pick(t, 4, 16) },
-		Floor:       func(t string) int { return pick(t, 1500, 30000) },
+		Floor:       func(t string) int { return pick(t, 400, 8000) },
 		TimeoutSec:  func(t string) int { return pick(t, 300, 3600) },
 		Prepare:     gramPrepare("C13", func(t string) int { return pick(t, 90, 220) }, c13Opts, nil, false),
 		Child:       c13Child,
